@@ -46,6 +46,7 @@ def run(ctx, rep):
     check_routing(fx, rep)
     check_balance_check(fx, rep)
     check_deposits(fx, rep)
+    check_register_wiring(fx, rep)
     rep.assume('the beneficiary payment and the gas reimbursement of the mainnet handlers are decided in C09; balances do not overflow (C08 F7)')
 
 
@@ -393,3 +394,72 @@ def check_deposits(fx, rep):
         rep.violation('R5-deposits', 'end', 'optimism end handler: ' + sorted(set(problems))[0], g.where())
     else:
         rep.ok('R5-deposits', 'end', 'failed deposit: nonce + 1, balance + mint, touched, Halt(FailedDeposit)')
+
+
+OP_REGISTER_SLOTS = {
+    '.validation.env': 'validate_env', '.validation.tx_against_state': 'validate_tx_against_state',
+    '.pre_execution.load_precompiles': 'load_precompiles', '.pre_execution.deduct_caller': 'deduct_caller',
+    '.execution.last_frame_return': 'last_frame_return', '.post_execution.refund': 'refund',
+    '.post_execution.reimburse_caller': 'reimburse_caller', '.post_execution.reward_beneficiary': 'reward_beneficiary',
+    '.post_execution.output': 'output', '.post_execution.end': 'end', '.post_execution.clear': 'clear',
+}
+
+
+def check_register_wiring(fx, rep):
+    """R6: the Optimism register installs, for every spec arm, each of its eleven handles into the
+    slot of the same name: the fee logic decided in R1-R5 lives in these functions, and `clear` drops
+    the cached L1 block info (without it the next transaction is charged from a stale L1 block)."""
+    from cfg import Origins
+    parent = 'revm::optimism::handler_register::optimism_handle_register'
+    cls = fx.closures_of(parent)
+    if not cls:
+        rep.undecided('R6-register-wiring', 'closure', 'register closure not found')
+        return
+    counts = {}
+    wrong = []
+    for c in cls:
+        rep.fn(c)
+        og = Origins(c, fx)
+        for b in c.blocks:
+            if b.cleanup:
+                continue
+            for s_ in b.stmts:
+                if s_.kind != 'assign' or not s_.place.pr or s_.rv is None or not s_.rv.ops:
+                    continue
+                slot = ''.join(p for p in s_.place.pr if p != '*')
+                slot = slot[slot.find('.'):] if '.' in slot else slot
+                for known in OP_REGISTER_SLOTS:
+                    if slot.endswith(known):
+                        slot = known
+                if slot not in OP_REGISTER_SLOTS:
+                    continue
+                counts[slot] = counts.get(slot, 0) + 1
+                # the function item boxed into the slot
+                items = set()
+
+                def walk(oo, depth=0):
+                    for o in oo:
+                        if o.root[0] == 'fn':
+                            items.add(o.root[1])
+                        elif o.root[0] == 'call' and depth < 4:
+                            t = c.blocks[o.root[2]].term
+                            if t.args:
+                                walk(og.of_operand(t.args[0]), depth + 1)
+                        elif o.root[0] == 'agg' and depth < 4 and len(o.root) > 4:
+                            for fld_o in o.root[4]:
+                                walk(list(fld_o), depth + 1)
+                walk(og.of_operand(s_.rv.ops[0]))
+                want = 'revm::optimism::handler_register::' + OP_REGISTER_SLOTS[slot]
+                if items and items != {want}:
+                    wrong.append('%s <- %s' % (slot, sorted(items)))
+    arms = max(counts.values()) if counts else 0
+    missing = sorted(s for s in OP_REGISTER_SLOTS if counts.get(s, 0) != arms)
+    if not counts:
+        rep.undecided('R6-register-wiring', 'slots', 'no handler slot assignment recognised')
+    elif missing:
+        rep.violation('R6-register-wiring', 'slots', 'the Optimism register does not install %s in every spec arm (%s of %d arms): the mainnet handle stays in place there' % (
+            missing, [counts.get(s, 0) for s in missing], arms), cls[0].where())
+    elif wrong:
+        rep.violation('R6-register-wiring', 'slots', 'the Optimism register installs another function than the slot\'s own: %s' % sorted(set(wrong))[0], cls[0].where())
+    else:
+        rep.ok('R6-register-wiring', 'slots', '11 handles x %d spec arms, each slot gets the function of its name' % arms)
